@@ -15,7 +15,7 @@ import (
 )
 
 func init() {
-	core.Register(core.Check{ID: "C18", Level: "exploration", Run: func(c *core.Ctx) { runC18(c); historyPass(c, "C18"); reentrancyPass(c, "C18") }})
+	core.Register(core.Check{ID: "C18", Level: "exploration", Run: func(c *core.Ctx) { runC18(c); historyPass(c, "C18"); reentrancyPass(c, "C18"); arch386Pass(c, "C18") }})
 }
 
 type c18case struct {
